@@ -2,11 +2,11 @@
 
 Kernel: Output.plot and _plot_core of the standard line plot, obsfcst, qq,
 sort, hist, freq (harness `diagrams`) and qq with -x/-q, scatter, error, change,
-cond, marginal, reliability, discrimination, pithist, timeseries (`diagrams2.*`), on a real Data object with symbolic cells.
+cond, marginal, reliability, discrimination, roc, pithist, timeseries (`diagrams2.*`), on a real Data object with symbolic cells.
 Boundary: matplotlib.pyplot is a recording stub -- the claim concerns the x / y
 arrays handed to plot()/bar(), one series per input in command-line order, and
 that every valid case falls in exactly one bin of a binned diagram.
-NOT decided: the other 12 diagrams, maps, rank and impact views, and whether
+NOT decided: the other 11 diagrams, maps, rank and impact views, and whether
 matplotlib draws what it is given."""
 import numpy as np
 
@@ -210,7 +210,7 @@ def run(S, which, T, L, P):
                 S.prove("bin-height=%s" % which, S.same(ys[b], w), twin=S.same(ys[b], w + 1))
 
 
-DIAGRAMS2 = ["discrimination", "pithist", "reliability/below", "reliability/above", "qq+quantiles/location", "qq+quantiles/no", "scatter/no", "scatter/location", "error/location", "change", "cond", "marginal/above", "marginal/below", "timeseries"]
+DIAGRAMS2 = ["roc", "discrimination", "pithist", "reliability/below", "reliability/above", "qq+quantiles/location", "qq+quantiles/no", "scatter/no", "scatter/location", "error/location", "change", "cond", "marginal/above", "marginal/below", "timeseries"]
 
 
 def h_diagrams2(which, big):
@@ -231,7 +231,7 @@ def run2(S, which, big):
     MI = common.input_class()
     T, L, P = {"scatter/no": (2, 1, 2), "scatter/location": (2, 1, 2), "error/location": (2, 1, 2), "change": (3, 1, 1),
                "cond": (2, 1, 1), "qq+quantiles/location": (2, 1, 2), "qq+quantiles/no": (2, 1, 1),
-               "discrimination": (3, 1, 1), "pithist": (3, 1, 1), "reliability/below": (3, 1, 1), "reliability/above": (3, 1, 1), "marginal/above": (2, 1, 2), "marginal/below": (2, 1, 2), "timeseries": (2, 2, 2)}[which]
+               "roc": (3, 1, 1), "discrimination": (3, 1, 1), "pithist": (3, 1, 1), "reliability/below": (3, 1, 1), "reliability/above": (3, 1, 1), "marginal/above": (2, 1, 2), "marginal/below": (2, 1, 2), "timeseries": (2, 2, 2)}[which]
     if big and which in ("scatter/no", "scatter/location"):
         L = 2
     if big and which == "cond":
@@ -268,7 +268,7 @@ def run2(S, which, big):
                 pit[cells[-1]] = S.real("B.pit?", nan=True, lo=0, hi=1)
             kw = {"pit": pit}
             rawp.append(pit)
-        if which.startswith("reliability") or which == "discrimination":
+        if which.startswith("reliability") or which in ("discrimination", "roc"):
             pr = S.array(nm + ".p", shape + (1,), nan=False, lo=0, hi=1)
             kw = {"thresholds": S.const([1.0]), "threshold_scores": pr}
             rawp.append(pr)
@@ -316,6 +316,11 @@ def run2(S, which, big):
     elif which == "cond":
         pl = out.Cond()
         pl.thresholds = S.vector(t)
+    elif which == "roc":
+        pl = out.Roc()
+        pl.thresholds = S.const([1.0])
+        pl.quantiles = S.const([0.25, 0.75])       # probability levels (-q)
+        pl.bin_type = "below"
     elif which == "discrimination":
         pl = out.Discrimination()
         pl.thresholds = S.const([1.0])
@@ -355,6 +360,30 @@ def run2(S, which, big):
         got = S.elements(got)
         return len(got) == len(want) and bool(S.all(S.same(a, b) for a, b in zip(got, want)))
 
+    if which == "roc":
+        # per input: (1,1), then for each probability level (false alarm rate, hit rate) of "forecast the event
+        # when its probability is at least the level", then (0,0); a rate without cases is NaN
+        sel = [q for q in cells if valid(q, need_fcst=False, extra=0)]
+        S.prove("one-series-per-input-in-order", [c[3]["label"] for c in series][:2] == list(names) and len(series) == 2, detail=which)
+        for k, c in enumerate(series[:2]):
+            xs, ys = S.elements(c[2][0]), S.elements(c[2][1])
+            S.prove("points-per-curve", len(xs) == 4 and len(ys) == 4, detail=which)
+            if len(xs) != 4 or not sel:
+                continue
+            S.prove("end-points", S.and_(S.same(xs[0], 1), S.same(ys[0], 1), S.same(xs[3], 0), S.same(ys[3], 0)), detail=which)
+            ev = {q: raw[k][0][q] < 1.0 for q in sel}
+            for j, lev in enumerate((0.25, 0.75)):
+                yes = {q: rawp[k][q + (0,)] >= lev for q in sel}
+                a = S.count(S.and_(yes[q], ev[q]) for q in sel)
+                b = S.count(S.and_(yes[q], S.not_(ev[q])) for q in sel)
+                n_ev = S.count(ev[q] for q in sel)
+                n_no = len(sel) - n_ev
+                defined = S.and_(n_ev > 0, n_no > 0)
+                S.prove("hit-rate-and-false-alarm-rate-at-the-level",
+                        S.ite(defined, S.and_(S.close(ys[1 + j], S.div(a, n_ev)), S.close(xs[1 + j], S.div(b, n_no))),
+                              S.and_(S.isnan(ys[1 + j]), S.isnan(xs[1 + j]))),
+                        twin=S.ite(defined, S.close(ys[1 + j], S.div(a, n_ev) + 1), False), detail="level %g" % lev)
+        return
     if which == "discrimination":
         # per input two bar series: the distribution of the forecast probability over the bins among the cases
         # where the event (obs < 1) was observed / not observed; each distribution sums to 100 %
